@@ -159,7 +159,8 @@ class LDAPMessageParsableBase(ParsableBase):
             message = LDAPMessage.load(bytes(parsable))
             # ensure recursive parsing
             message.native  # pylint: disable=pointless-statement
-        except KeyError as e:
+        except (KeyError, TypeError, AttributeError) as e:
+            # an element that does not fit the schema at its position ends in one of these inside the decoder
             six.raise_from(InvalidValue(parsable, cls), e)
         except ValueError as e:
             match = cls._NOT_ENOUGH_DATA_REGEX.match(e.args[0])
